@@ -112,6 +112,8 @@ def same(x, y, tol=1e-9):
         return isinstance(x, (bool, np.bool_)) and isinstance(y, (bool, np.bool_)) and bool(x) == bool(y)
     if isinstance(x, (list, tuple)) and isinstance(y, (list, tuple)):
         return len(x) == len(y) and all(same(a, b, tol) for a, b in zip(x, y))
+    if x is None or y is None or isinstance(x, str) or isinstance(y, str):
+        return type(x) is type(y) and x == y
     try:
         a, b = np.asarray(x, dtype=float), np.asarray(y, dtype=float)
     except Exception:
@@ -714,11 +716,12 @@ def methods_of(cn):
                M_('w', 'w', lambda x: x.w, 'acc_first'),
                M_('isprismatic', 'isprismatic', lambda x: x.isprismatic, single('AttributeError')),
                M_('isrevolute', 'isrevolute', lambda x: x.isrevolute, single('AttributeError')), M_('isunit', 'isunit', lambda x: x.isunit),
-               M_('exp()', 'exp', lambda x: x.exp(), single('ValueError'))]
+               M_('exp()', 'exp', lambda x: x.exp(), single('ValueError')),
+               M_('unit', 'unit', lambda x: x.unit, single(('ValueError', 'TypeError')))]
     if cn == 'Twist3':
         ms += [M_('se3()', 'se3', lambda x: x.se3()), M_('SE3()', 'SE3', lambda x: x.SE3(), single('ValueError')),
                M_('theta()', 'theta', lambda x: x.theta(), 'acc_first'), M_('pitch()', 'pitch', lambda x: x.pitch(), 'acc_first'),
-               M_('pole()', 'pole', lambda x: x.pole(), 'acc_first'), M_('unit', 'unit', lambda x: x.unit, single('TypeError')),
+               M_('pole()', 'pole', lambda x: x.pole(), 'acc_first'),
                M_('line()', 'line', lambda x: x.line(), 'acc_map'), M_('ad()', 'ad', lambda x: x.ad(), None, 'census'),
                M_('Ad()', 'Ad', lambda x: x.Ad(), None, 'census')]
     if cn == 'Twist2':
@@ -833,7 +836,14 @@ def method_grid_pool(ctx, MT, census_out=None):
                 # ---- the hand model of the accessor shape
                 if shape is None:
                     continue
-                key = (shape[0], shape[1], M) if isinstance(shape, tuple) else (shape, M)
+                if isinstance(shape, tuple):
+                    # the exception kind of a single-value-only accessor may depend on the length (a list of 6 twists passes the
+                    # kernel's length test and fails later): the shape lists the admissible kinds
+                    kinds = shape[1] if isinstance(shape[1], tuple) else (shape[1],)
+                    kind = obs[1] if obs[0] == 'err' and obs[1] in kinds else kinds[0]
+                    key = (shape[0], kind, M)
+                else:
+                    key = (shape, M)
                 ctx.corr['cases'] += 1
                 mod = parse_acc(MT[key], M)
                 if mod != obs and obs == ('ok', list(range(M))) and (shape == 'acc_first' or isinstance(shape, tuple)):
@@ -927,6 +937,132 @@ def twist_exp_grid(ctx, MT):
                            {'class': cn, 'method': 'exp', 'm': m, 'theta': th.tolist(), 'elements_hex': [hexl(a) for a in A[:m]]})
 
 
+# --------------------------------------------------------------------------------------------- history cells
+# Every grid above uses FRESH operands.  The model is a function of the current list of values only; the history cells
+# tie that to the implementation: evaluate E on X, change X through a list mutator (or change the object the first
+# evaluation returned, or take a slice), evaluate E again and compare with E on a fresh object built from X's CURRENT
+# values.  A result that depends on what was computed before (a cache that is not invalidated) shows up here.
+def evaluations_of(cn, rng):
+    """(site, label, E) with E(X) -> value; one per accessor / unary method / operator position of the grids"""
+    ev = []
+    for label, attr, f, shape, cat in methods_of(cn):
+        ev.append((f"{definer(cn, attr)}.{attr}", f"X.{label}", f))
+    P = mk(cn, [elem(cn, rng)])
+    for opname, op, dunder in BINOPS[:4] + EQOPS:
+        if defined_in_library(cn, dunder):
+            site = f"{definer(cn, dunder)}.{optoken(opname)}"
+            ev.append((site + '(left operand)', f"X {opname} P", (lambda o: lambda X: o(X, P))(op)))
+            ev.append((site + '(right operand)', f"P {opname} X", (lambda o: lambda X: o(P, X))(op)))
+    if defined_in_library(cn, '__mul__'):
+        ev.append((f"{definer(cn, '__mul__')}.mul-scalar", 'X * 1.75', lambda X: X * 1.75))
+    if defined_in_library(cn, '__rmul__'):
+        ev.append((f"{definer(cn, '__rmul__')}.scalar-times-X", '1.75 * X', lambda X: 1.75 * X))
+    if defined_in_library(cn, '__pow__'):
+        ev.append((f"{definer(cn, '__pow__')}.pow", 'X ** 2', lambda X: X ** 2))
+        ev.append((f"{definer(cn, '__pow__')}.pow", 'X ** -1', lambda X: X ** -1))
+    if cn in POSES + ('UnitQuaternion',):
+        pt = rng.uniform(0.3, 2.0, size=2 if cn in ('SO2', 'SE2') else 3)
+        ev.append((f"{definer(cn, '__mul__')}.mul-points", 'X * point', lambda X: X * pt))
+        ev.append((f"{definer(cn, 'interp')}.interp", 'X.interp(0.3)', lambda X: X.interp(0.3)))
+    if cn in ('Quaternion', 'UnitQuaternion'):
+        ev.append(('Quaternion.inner', 'X.inner(P)', lambda X: X.inner(P)))
+        ev.append(('Quaternion.inner', 'P.inner(X)', lambda X: P.inner(X)))
+    if cn in ('Twist3', 'Twist2'):
+        Q = mk('SE3' if cn == 'Twist3' else 'SE2', [elem('SE3' if cn == 'Twist3' else 'SE2', rng)])
+        ev.append((f"{cn}.mul-pose", 'X * pose', lambda X: X * Q))
+        ev.append((f"{cn}.exp", 'X.exp([0.4])', lambda X: X.exp([0.4])))
+    return ev
+
+
+def mutators_of(cn, rng):
+    """(name, applicable(len), apply(X)) -- the list mutators of SMUserList, with new values of class cn"""
+    new1 = lambda: mk(cn, [elem(cn, rng)])  # noqa: E731
+    new2 = lambda: mk(cn, [elem(cn, rng), elem(cn, rng)])  # noqa: E731
+
+    def delitem(X):
+        del X[0]
+
+    def setitem0(X):
+        X[0] = new1()
+
+    def setlast(X):
+        X[len(X) - 1] = new1()
+    return [('append', lambda k: k < NMAX, lambda X: X.append(new1())),
+            ('extend', lambda k: k + 2 <= NMAX, lambda X: X.extend(new2())),
+            ('insert(0, v)', lambda k: k < NMAX, lambda X: X.insert(0, new1())),
+            ('pop()', lambda k: k >= 2, lambda X: X.pop()),
+            ('pop(0)', lambda k: k >= 2, lambda X: X.pop(0)),
+            ('reverse()', lambda k: k >= 2, lambda X: X.reverse()),
+            ('del X[0]', lambda k: k >= 2, delitem),
+            ('X[0] = v', lambda k: True, setitem0),
+            ('X[-1] = v', lambda k: k >= 2, setlast)]
+
+
+def outcome_same(r1, r2):
+    if r1[0] != r2[0]:
+        return False
+    if r1[0] == 'raise':
+        return type(r1[1]) is type(r2[1])
+    return same(r1[1], r2[1])
+
+
+def show_outcome(r):
+    return ('raises ' + exn_name(r[1])) if r[0] == 'raise' else describe(r[1])
+
+
+def history_grid(ctx):
+    rng = ctx.rng
+    for cn in CLASSES:
+        evs = evaluations_of(cn, rng)
+        muts = mutators_of(cn, rng)
+        for site, label, E in evs:
+            def judge(kind, X, second, replay):
+                """second = E(X) after the history; compare with E on a fresh object holding X's current values"""
+                fresh = mk(cn, [np.array(a, dtype=float) for a in X.data])
+                ref = call(lambda: E(fresh))
+                ctx.case(('history', cn, label, kind, replay.get('mutator'), replay.get('length_before')))
+                ctx.count('oracle:history-cells')
+                if not outcome_same(second, ref):
+                    ctx.fail(f'oracle:history:{site}:{kind}', f"{cn}: {label} depends on the history of the object, not only on its current values: "
+                             f"after [{replay['history']}] it gives {show_outcome(second)}, a fresh object holding the same {len(X)} value(s) "
+                             f"gives {show_outcome(ref)}", dict(replay, **{'class': cn, 'evaluation': label, 'current_values_hex': [hexl(a) for a in X.data]}))
+            for k0 in range(1, NMAX):
+                for mname, ok, apply in muts:
+                    if not ok(k0):
+                        continue
+                    # (1) evaluate, mutate the operand, evaluate again
+                    X = mk(cn, [elem(cn, rng) for _ in range(k0)])
+                    first = call(lambda: E(X))
+                    m = call(lambda: apply(X))
+                    if m[0] == 'raise' or len(X) == 0:
+                        ctx.stats.setdefault('history:mutator-unavailable', {})[f"{cn} {mname}"] = exn_name(m[1]) if m[0] == 'raise' else 'empty'
+                        continue
+                    judge('stale-after-mutation', X, call(lambda: E(X)),
+                          {'history': f"{label}; X.{mname}; {label}" if not mname.startswith(('del', 'X[')) else f"{label}; {mname}; {label}",
+                           'mutator': mname, 'length_before': k0, 'length_after': len(X)})
+                    # (2) mutate the object the first evaluation returned, evaluate again
+                    if first[0] == 'ok' and isinstance(first[1], SMUserList) and first[1] is not X:
+                        X = mk(cn, [elem(cn, rng) for _ in range(k0)])
+                        r0 = E(X)
+                        rc = type(r0).__name__
+                        rm = [mm for mm in mutators_of(rc, rng) if mm[0] == mname] if rc in CLASSES else []
+                        if rm and rm[0][1](len(r0)) and call(lambda: rm[0][2](r0))[0] == 'ok':
+                            judge('stale-after-result-mutation', X, call(lambda: E(X)),
+                                  {'history': f"r = {label}; r.{mname}; {label}", 'mutator': mname, 'length_before': k0, 'length_after': len(X)})
+                # (3) evaluate, take a slice, evaluate on the slice
+                if k0 >= 2:
+                    for sl, sname in ((slice(0, k0 - 1), 'X[0:-1]'), (slice(None, None, -1), 'X[::-1]'), (slice(1, None), 'X[1:]')):
+                        X = mk(cn, [elem(cn, rng) for _ in range(k0)])
+                        call(lambda: E(X))
+                        y = call(lambda: X[sl])
+                        if y[0] == 'raise' or len(y[1]) == 0:
+                            continue
+                        Y = y[1]
+                        judge('stale-on-slice', Y, call(lambda: E(Y)), {'history': f"{label}; Y = {sname}; the same on Y", 'mutator': sname, 'length_before': k0, 'length_after': len(Y)})
+                        call(lambda: Y.reverse())
+                        judge('stale-on-slice', Y, call(lambda: E(Y)), {'history': f"{label}; Y = {sname}; the same on Y; Y.reverse(); the same on Y", 'mutator': sname + '+reverse', 'length_before': k0, 'length_after': len(Y)})
+
+
 # --------------------------------------------------------------------------------------------- run
 def run(ctx):
     ctx.rule = ("obligations: theorems of theories/Props/C09.v about the hand model Model/C09_Broadcast.v; evaluations: "
@@ -952,6 +1088,8 @@ def run(ctx):
         for _ in range(ctx.n(1, 8)):
             interp_grid(ctx, MT)
             twist_exp_grid(ctx, MT)
+    with ctx.timed('oracle:history'):
+        history_grid(ctx)
     ctx.sample({'kind': 'operator cell', 'class': 'SE3', 'op': '*', 'm': 1, 'n': 3, 'expect': 'result[k] == SE3(left[0]) * SE3(right[k])'})
     ctx.sample({'kind': 'helper correspondence', 'call': 'Quaternion(3 values).binop(Quaternion(2 values), tag-pair)', 'model': MT[('binop', True, 3, 2)]})
     ctx.sample({'kind': 'helper correspondence', 'call': 'SE3(1 value)._op2(SE3(4 values), tag-pair)', 'model': MT[('op2', 1, 4)]})
